@@ -19,8 +19,10 @@ BOUNDS = {
     "hmm": "K states x M symbols x T steps in {(2,2,1),(2,2,2),(2,3,2),(3,2,2),(2,2,3)} (thorough adds (3,3,2),(2,3,3),(3,2,3)); "
            "all stochastic matrices with positive entries, and (sparse groups) with entries >= 0 and p(y) > 0; ALL observation "
            "sequences (symbolic indices in range) and ALL sampled state sequences",
-    "kalman": "(d_state, d_obs, T) in {(1,1,1),(1,1,2),(1,1,3),(2,1,1),(2,1,2),(1,2,1),(1,2,2)} (thorough adds (2,2,1),(2,1,3),(1,2,3),(2,2,2)); "
-              "all real model matrices with symmetric positive-definite covariances; all observation values",
+    "kalman": "kalman_filter (d_state, d_obs, T) in {(1,1,1),(1,1,2),(1,1,3),(2,1,1),(2,1,2),(1,2,1)} (thorough adds (1,1,4),(2,1,3)); kalman_smoother "
+              "{(1,1,1),(1,1,2),(1,1,3),(2,1,1),(1,2,1)} (thorough adds (1,1,4)); step model (1,1),(2,1),(1,2), iterated (1,1) x 2 steps; "
+              "all real model matrices, all symmetric positive-definite covariances (parametrised by their Cholesky factor), all observation values. "
+              "NOT covered (normal forms / path enumeration exceed the budget): d_obs = 2 with T >= 2, d_state = d_obs = 2, smoother with d_state = 2 and T >= 2",
 }
 ASSUMPTIONS = [
     "HMM: log-domain mode (Log a + Log b = Log ab; logsumexp's max shift cancelled by an identity rewrite whose side condition, a provably non-zero shift, is discharged by z3)",
@@ -43,11 +45,12 @@ def groups(tier, seed):
         gs += [f"ff:{k}:{m}:{t}", f"ffbs:{k}:{m}:{t}", f"seq:{k}:{m}:{t}"]
     gs += ["ff0:2:2:2", "ffbs0:2:2:2"] + (["ff0:2:3:2", "ff0:3:2:2", "ffbs0:2:2:3"] if tier == "thorough" else [])
     gs += ["step:2:2", "step:3:2", "step:2:3", "iter:2:2:2", "iter:2:2:3"]
-    kf = [(1, 1, 1), (1, 1, 2), (1, 1, 3), (2, 1, 1), (2, 1, 2), (1, 2, 1), (1, 2, 2)]
+    kf = [(1, 1, 1), (1, 1, 2), (1, 1, 3), (2, 1, 1), (2, 1, 2), (1, 2, 1)]
+    ks = [(1, 1, 1), (1, 1, 2), (1, 1, 3), (2, 1, 1), (1, 2, 1)]
     if tier == "thorough":
-        kf += [(2, 2, 1), (2, 1, 3), (1, 2, 3), (2, 2, 2)]
-    for ds, do, t in kf:
-        gs += [f"kf:{ds}:{do}:{t}", f"ks:{ds}:{do}:{t}"]
+        kf += [(1, 1, 4), (2, 1, 3)]
+        ks += [(1, 1, 4)]
+    gs += [f"kf:{a}:{b}:{c}" for a, b, c in kf] + [f"ks:{a}:{b}:{c}" for a, b, c in ks]
     gs += ["lgstep:1:1", "lgstep:2:1", "lgstep:1:2", "lgiter:1:1:2"]
     return gs
 
